@@ -53,6 +53,11 @@ ASSUMPTIONS = [
     "a message flagged as a response that does NOT parse is answered with FORMERR (the code's comment explains why this cannot loop); "
     "`no reply to a message flagged as a response` is read as: to a message that decodes and has QR=1 (DESIGN 5/C09)",
     "liveness (`does not crash and keeps serving`) is observed on the real binary after every batch, not proved",
+    "TCP connections on which the CLIENT misbehaves (closes or resets without reading, or sends more octets than its length prefix "
+    "announces, so that the server closes with unread input and the kernel resets the connection) may lose the reply or part of it "
+    "(the payload is a second small write held back by Nagle): for these only a COMPLETE reply is checked; the server must stay up",
+    "no wildcard NS records in the generated zones (RFC 4592 4.2 leaves them undefined; the code treats them as one more delegation, "
+    "i.e. one more shape of the known referral finding)",
 ]
 TRUSTED = ["independent reference decoder vlib/wireref.py (oracle only)",
            "python zone-file / hosts-file renderer and socket client in vlib/p_c09.py"]
